@@ -361,6 +361,18 @@ def forms_agree(chk, nrng):
             a, b = nrng.uniform(1.0, 9.0, size=(3,)), np.sort(nrng.uniform(1.0, 9.0, size=(3,)))
             x, y = Q(a.copy(), "degC"), Q(b.copy(), "meter" if nm != "subtract" else "degC")
             chk.case(("offset-array-untouched", tuple(mode), nm))
+            # the same product with the operands swapped is the same physical quantity (or the same refusal)
+            if nm in ("dot", "multiply"):
+                def once(f):
+                    try:
+                        with np.errstate(all="ignore"):
+                            r = f()
+                        return ("ok", np.asarray(r.to_base_units().magnitude).round(6).tolist(), sorted((k, float(v)) for k, v in r.to_base_units().unit_items()))
+                    except Exception as e:
+                        return ("raises", type(e).__name__)
+                o1, o2 = once(lambda: mk(x, y)), once(lambda: mk(y, x))
+                if o1 != o2:
+                    chk.diverge({"clause": "operand-order-changes-result", "function": nm, "autoconvert": bool(mode)}, {"function": nm, "mode": mode, "x_first": repr(o1)[:200], "y_first": repr(o2)[:200]})
             outs = []
             for _ in range(2):
                 try:
